@@ -173,7 +173,7 @@ def _build_exprs(world, fspecs, cspecs):
 
 EXCL_RC1_FUNCS = "two unlabeled functions of the same name in one select list (known finding: duplicate detection skipped, key answers with another column)"
 EXCL_RC1_GENLIKE = "explicit label shaped like a generated / de-duplicated label (anon_1, a_1): may collide with one (known finding: duplicate detection skipped)"
-EXCL_RC1_TRUNC = "label_length <= 9: the truncated label of a repeated column (a__1 -> a_1) next to another column / label of the same name whose de-duplicated (proxy) key is a_N (known finding: duplicate detection skipped, key answers with the other column)"
+EXCL_RC1_TRUNC = "the same column selected more than once next to another column / label of the same name: de-duplicated proxy keys (a_N) collide with result keys (known finding: duplicate detection skipped -> wrong column, or spurious Ambiguous)"
 EXCL_RC2_UNARY = "unlabeled unary minus over a column that is also selected (known finding: both share one result-map entry, column object lookup raises Ambiguous)"
 EXCL_RC3_TQ = "result key / explicit label equal to the legacy tablename_colname of another selected column (known finding: raises Ambiguous)"
 EXCL_RC1_TEXTNAME = "text().columns(name=type) where the SQL returns that name more than once (known finding: duplicate detection skipped)"
@@ -194,14 +194,13 @@ def _known_exclusions_simple(recs, case, info):
         trig.append(EXCL_RC1_FUNCS)
     if labels & set(GENLIKE):
         trig.append(EXCL_RC1_GENLIKE)
-    if case.get("label_length") and case["label_length"] <= 9:
-        plain = [r for r in recs if r["kind"] == "col"]
-        for r in plain:
-            if sum(1 for q in plain if q["colid"] == r["colid"]) > 1 and any(
-                (q["kind"] in ("col", "neg") and q["cname"] == r["cname"] and q["colid"] != r["colid"]) or q["label"] == r["cname"] for q in recs
-            ):
-                trig.append(EXCL_RC1_TRUNC)
-                break
+    plain = [r for r in recs if r["kind"] == "col"]
+    for r in plain:
+        if sum(1 for q in plain if q["colid"] == r["colid"]) > 1 and any(
+            (q["kind"] in ("col", "neg") and q["cname"] == r["cname"] and q["colid"] != r["colid"]) or q["label"] == r["cname"] for q in recs
+        ):
+            trig.append(EXCL_RC1_TRUNC)
+            break
     for i, r in enumerate(recs):
         if r["kind"] == "neg" and any(j != i and q["kind"] in ("col", "neg") and q["colid"] == r["colid"] for j, q in enumerate(recs)):
             trig.append(EXCL_RC2_UNARY)
